@@ -140,6 +140,23 @@ func H_C03_step_redelegate() { c03Step("C03.step.redelegate", OpRedelegate, shap
 func H_C03_step_claim()      { c03Step("C03.step.claim", OpClaim, shapeActor("shape"), Opts{Rewards: true}, false) }
 func H_C03_step_slash()      { c03Step("C03.step.slash", OpSlash, shapeActor("shape"), Opts{}, true) }
 
+// H_C03_step_slash_redel: the source validator of a pending redelegation is slashed; the slash of the
+// redelegated stake edits the destination delegation and the destination validator's delegator-share
+// total together (including the branch where the destination position shrank below the slash amount).
+func H_C03_step_slash_redel() {
+	id := "C03.step.slash_redel"
+	st := Build([]Pos{{0, 0, 0}, {0, 1, 0}, {1, 1, 0}}, Opts{})
+	e := st.E
+	InstallRedelegation(e, 0, 0, 1, 0, nd.IntRange("r1", "1", Pow30), nd.TimeRange("c1", TLo, THi))
+	f := nd.DecRange("fraction", "0.000000000000000001", "1")
+	var err error
+	if Caught(func() { err = e.K.StakingHooks().BeforeValidatorSlashed(e.Ctx, Vals[0], f) }) || err != nil {
+		return // totality is C08's subject
+	}
+	nd.Reach(id)
+	ReadLedger(e).Assert(id)
+}
+
 // hintUnitPrices: regime used when a concrete counterexample is searched - 1000 tokens
 // staked at validator-share price 1, delegator-share price 1 on the actor's validator.
 func hintUnitPrices(st *State) {
